@@ -136,7 +136,7 @@ def _split_top(s: str) -> list:
 _RE_STATES = re.compile(r"^(\d+) states generated, (\d+) distinct states found", re.M)
 _RE_DEPTH = re.compile(r"The depth of the complete state graph search is (\d+)")
 _RE_INV = re.compile(r"^Error: Invariant (\S+) is violated", re.M)
-_RE_PROP = re.compile(r"^Error: (Action property|Temporal properties) ?(\S*)", re.M)
+_RE_PROP = re.compile(r"^Error: (?:Action property (\S+)|Temporal propert(?:y|ies) ?(\S*))", re.M)
 _RE_SIMSTATES = re.compile(r"^The number of states generated: (\d+)", re.M)
 
 
@@ -224,10 +224,12 @@ def run_tlc(
     for m in _RE_INV.finditer(out):
         res.invariant_violations.append((m.group(1), _trace_after(out, m.end())))
     for m in _RE_PROP.finditer(out):
-        res.property_violations.append((m.group(0), _trace_after(out, m.end())))
+        name = (m.group(1) or m.group(2) or "").strip() or m.group(0)
+        res.property_violations.append((name if name not in ("were", "was") else m.group(0), _trace_after(out, m.end())))
     for line in out.splitlines():
         if line.startswith("Error:") and "Invariant" not in line and "property" not in line.lower() \
-                and "behavior up to this point" not in line:
+                and "behavior up to this point" not in line and "constitutes a counter-example" not in line \
+                and "Temporal propert" not in line:
             res.errors.append(line)
     if rc == 124:
         res.errors.append("TLC timed out")
